@@ -92,6 +92,38 @@ def skewed_cases(tier):
                                "opts": {"partition_difference": d}}
 
 
+@st.composite
+def larger_cases(draw):
+    """13-17 items: beyond 2^n brute force, still exact with the (count, sum) DP oracle."""
+    n = draw(st.integers(13, 17))
+    style = draw(st.sampled_from(["uniform-100", "uniform-1000", "skewed", "skewed", "ties"]))
+    seed = draw(st.integers(0, 2 ** 40))
+    if style == "uniform-100":
+        values = S.splitmix(seed, n, 0, 100)
+    elif style == "uniform-1000":
+        values = S.splitmix(seed, n, 1, 1000)
+    elif style == "skewed":
+        nbig = draw(st.integers(1, 4))
+        values = S.splitmix(seed, nbig, 20, 90) + S.splitmix(seed + 1, n - nbig, 1, 4)
+        values = list(draw(st.permutations(values)))
+    else:
+        pool = draw(st.lists(st.integers(1, 12), min_size=2, max_size=3))
+        values = [pool[i % len(pool)] for i in S.splitmix(seed, n, 0, 5)]
+    d = draw(st.sampled_from([None, 1, 1, 2, 3]))
+    case = {"alg": "cbldm", "values": values, "numbins": 2, "pres": draw(st.sampled_from(["list", "list", "dict-str"])),
+            "nseed": draw(st.integers(0, 5)), "profile": "larger-" + style}
+    if d is not None:
+        case["opts"] = {"partition_difference": d}
+    return case
+
+
+def valid_larger(case):
+    if not cases.valid_partition_case(dict(case, alg="greedy")) or case.get("numbins") != 2:
+        return False
+    d = (case.get("opts") or {}).get("partition_difference")
+    return (d is None or (isinstance(d, int) and d >= 1)) and len(case["values"]) <= 18
+
+
 def valid(case):
     if not cases.valid_partition_case(dict(case, alg="cbldm")):
         return False
@@ -109,6 +141,9 @@ def legs(tier):
             "bound, |sum A - sum B| == minimum over all subsets obeying the bound (DP over (count,sum) states); non-trivial "
             "= the bound binds (constrained optimum > unconstrained optimum)",
             strategy=random_cases(), n_quick=5000, n_thorough=100000, valid=valid, floor=0.03),
+        Leg("larger", evaluate, "hypothesis: 13-17 items (values 0..100, 1..1000, few big + many small, 2-3 distinct values), bound default / 1 / 2 / 3: "
+            "beyond 2^n brute force, exact with the DP oracle; same rule", strategy=larger_cases(), n_quick=500, n_thorough=10000,
+            valid=valid_larger, floor=0.03),
         Leg("exhaustive-small", evaluate, "every multiset of <=8 values from 0..4 x bound 1..4, complete in both tiers; same rule",
             enum=exhaustive_cases, valid=valid, exhaustive="both", scope="multisets(<=8 from 0..4) x bound 1..4"),
         Leg("exhaustive-skewed", evaluate,
